@@ -18,6 +18,7 @@ Hypotheses used below (all decidable on a concrete history, see the examples at 
                            delivered but is forgotten by design; wall-clock expiry is not modelled).
 -/
 import BV.C02.Lemmas10
+import BV.C02.Witness
 import BV.Generated.C02
 namespace BV.C02
 open Spec Lemmas
@@ -186,21 +187,6 @@ theorem invalidate_excludes_partial (ops : List Op) (h : Hash) (c : Option Hash)
     (run (ops ++ [.invalidate h c])).best.contains h = false :=
   run_invalidate_excludes ops h c hdo hwf hb h0
 
-def vb (i p : Nat) : BlockAbs := ⟨i, p, 1, true, true, true, true⟩
-
-/-- F-C02-a: G–A1..A5 active, C3–C4 off A2, D1–D3 off genesis; invalidate A1 -/
-def witnessA : List Op :=
-  [.block (vb 1 0), .block (vb 2 1), .block (vb 3 2), .block (vb 4 3), .block (vb 5 4),
-   .block (vb 6 2), .block (vb 7 6), .block (vb 8 0), .block (vb 9 8), .block (vb 10 9),
-   .invalidate 1 none]
-
-/-- F-C02-b: A1–A4, B1→{B2a},{B2b→B3b}; invalidate B1, invalidate A3, reconsider B1 with the
-implementation's map-order choice falling on the short branch B2a -/
-def witnessB : List Op :=
-  [.block (vb 1 0), .block (vb 2 1), .block (vb 3 2), .block (vb 4 3), .block (vb 5 0),
-   .block (vb 6 5), .block (vb 7 5), .block (vb 8 7),
-   .invalidate 5 none, .invalidate 3 none, .reconsider 5 (some 6)]
-
 theorem witnessA_tip : (run witnessA).tip = 0 := by decide
 theorem witnessB_tip : (run witnessB).tip = 2 := by decide
 
@@ -308,11 +294,6 @@ theorem pin_notifications :
     Generated.C02.ntBlockDisconnected = 2 := by decide
 
 /-! ### 7. the hypotheses are satisfiable -/
-
-/-- a history with a fork, an orphan detour, a duplicate, a header, and an invalid-at-connect block -/
-def sampleOps : List Op :=
-  [.block (vb 3 2), .header (vb 1 0), .block (vb 1 0), .block (vb 2 1), .block (vb 2 1),
-   .block (vb 4 0), .block ⟨5, 3, 1, true, true, true, false⟩, .block (vb 6 4), .block (vb 7 6), .block (vb 8 7)]
 
 example : deliveryOnly sampleOps ∧ WF (mentioned sampleOps) ∧ (run sampleOps).evicted = [] := by
   refine ⟨by decide, by decide, by decide⟩
